@@ -321,6 +321,50 @@ class Tally:
         self.run(kind, buf)
 
 
+def printer_leg(res, texts, seed, n=2000):
+    """the text printer of Model/Printer.v (theorems C02_print_*) against yang.Parse itself: for a sample of the
+    grammar-directed texts that the reference reader accepts, the forest is printed by the extracted print_forest
+    (command printparse, which also re-reads the printed text with the reference reader) and the PRINTED text is given
+    to yang.Parse: it must yield exactly the forest the original text yields (keywords, argument presence, argument
+    strings, nesting and order; positions ignored).  Its own PRNG, so that the main sweep's cases do not move."""
+    rnd = random.Random(seed ^ 0x5052494e54)
+    texts = sorted(set(texts))
+    if len(texts) > 2 * n:
+        texts = rnd.sample(texts, 2 * n)        # about half of them are accepted; at most n printed texts go to yang.Parse
+    hs = [c16.hx(t) for t in texts]
+    pr = lib.run_ml(["printparse " + h for h in hs])
+    st = dict(cases=len(texts), printed=0, reject=0, ambiguous=0, statements=0, escaped_arguments=0, pattern_statements=0,
+              identical_text=0, mismatches=0)
+    idx = []
+    for i, o in enumerate(pr):
+        if o.startswith("printed "):
+            if len(idx) < n:
+                idx.append(i)
+        elif o in ("reject", "ambiguous"):
+            st[o] += 1
+        else:
+            st["mismatches"] += 1
+            if st["mismatches"] <= 3:
+                res.violation("printer: the extracted print_forest / reference reader failed on %r: %s" % (texts[i][:200], o[:200]),
+                              dict(kind="printer", case="parse " + hs[i], printed=o))
+    go1 = lib.run_go(["parse " + hs[i] for i in idx])
+    go2 = lib.run_go(["parse " + pr[i][len("printed "):] for i in idx])
+    for i, a, b in zip(idx, go1, go2):
+        st["printed"] += 1
+        ph = pr[i][len("printed "):]
+        st["statements"] += a.count("(")
+        st["escaped_arguments"] += 1 if "5c" in [ph[j:j + 2] for j in range(0, len(ph), 2)] else 0
+        st["pattern_statements"] += a.count("(7061747465726e,")
+        st["identical_text"] += 1 if ph == hs[i] else 0
+        if not a.startswith("ok") or POS.sub(";", a) != POS.sub(";", b):
+            st["mismatches"] += 1
+            if st["mismatches"] <= 3:
+                res.violation("printer: yang.Parse reads %r as %s but the printed text %r as %s"
+                              % (texts[i][:200], a[:300], bytes.fromhex(ph.replace("-", "")).decode("utf-8", "replace")[:200], b[:300]),
+                              dict(kind="printer", case="parse " + hs[i], printed=ph, impl=a, impl_printed=b))
+    return st
+
+
 def run(res, tier, seed, proof):
     rnd = random.Random(seed)
     quick = tier == "quick"
@@ -369,10 +413,12 @@ def run(res, tier, seed, proof):
               + c16.deep_texts(c16.DEEP_DEPTHS, c16.DEEP_OPEN_NODQ), model=False, shards=lib.NCPU)
     T.run_chunked("long-concatenations", long_concatenations(rnd))
     T.run_chunked("multiline-grid", multiline_grid(24))
-    T.run_chunked("grammar-directed", grammar_cases(rnd, 3000 if quick else 60000))
+    gd = grammar_cases(rnd, 3000 if quick else 60000)
+    T.run_chunked("grammar-directed", gd)
     T.run_chunked("malformed", malformed_cases(rnd, 300 if quick else 6000))
     if T.oof:
         res.violation("the model reported out-of-fuel on %d case(s)" % T.oof, dict(kind="model-out-of-fuel"), no_input=True)
+    printer = printer_leg(res, gd, seed)
     cov = dict(evaluations=T.n, distinct_nontrivial=T.nontrivial,
                rule="(i) every string up to length %d over the 14-symbol token alphabet {a + / * ; { } ' \" \\ n SP TAB LF}; "
                     "every token sequence up to length %d over the 15 tokens {a pattern + ; { } \"b\" 'b' \"+\" '+' \";\" \"{\" \"}\" \"\" \"a\\d\"} "
@@ -390,8 +436,9 @@ def run(res, tier, seed, proof):
                     % (n_ex, tl, 4 if quick else 5, nb, 6 if quick else len(LAYOUTS),
                        "" if quick else "; all strings of length 7..8 (9 for braces) over four 5/6-symbol sub-alphabets", len(KWS), len(ARGS),
                        len(c16.FAULTS)),
-               correspondence_mismatches=T.corr_mism, oracle_mismatches=T.oracle_mism, mismatches=T.corr_mism + T.oracle_mism,
-               model_out_of_fuel=T.oof, lexer_rune_loop=T.u8, reference_reader_termination_invariance_checked=T.terminated_checked,
+               correspondence_mismatches=T.corr_mism, oracle_mismatches=T.oracle_mism,
+               mismatches=T.corr_mism + T.oracle_mism + printer["mismatches"],
+               model_out_of_fuel=T.oof, lexer_rune_loop=T.u8, printer=printer, reference_reader_termination_invariance_checked=T.terminated_checked,
                distribution=dict(reference_verdicts=T.verdicts, implementation=T.impl, by_generator=T.kinds),
                samples=[s["case"] for s in T.samples], sample_observations=[s["impl"] + " | " + s["spec"] for s in T.samples])
     return cov, ["UTF-8 decoding is the extracted Model/Utf8.decode (model of utf8.DecodeRuneInString as lexer.next calls it; theorems "
@@ -407,6 +454,11 @@ def replay(rep, res):
         print(rep)
         return 1
     go, ml = lib.run_go([c])[0], lib.run_ml([c])[0]
+    if rep.get("kind") == "printer":
+        pr = lib.run_ml([c.replace("parse ", "printparse ", 1)])[0]
+        go2 = lib.run_go(["parse " + pr[len("printed "):]])[0] if pr.startswith("printed ") else "-"
+        print("case :", c, "\nimpl :", go, "\nprint:", pr, "\nimpl on printed:", go2)
+        return 0 if pr in ("reject", "ambiguous") or (pr.startswith("printed ") and go.startswith("ok") and POS.sub(";", go) == POS.sub(";", go2)) else 1
     if rep.get("kind") == "lextrace":
         print("case :", c, "\nimpl :", go, "\nmodel:", ml)
         return 1 if go != ml else 0
